@@ -96,7 +96,7 @@ def parse_template(text):
                 cur = Block(parts[1], parts[2].strip())
                 cur.alt = alt
                 mode = None
-            elif st.startswith("//@assume "):
+            elif st.startswith("//@assume ") or st.startswith("//@assume-opt "):
                 # //@assume <contract> <path> <spec>   (one-line block)
                 if buf:
                     out.append(("text", "\n".join(buf) + "\n"))
@@ -105,6 +105,9 @@ def parse_template(text):
                 b = Block(parts[2], parts[3])
                 b.contract = parts[1]
                 b.assume = True
+                # //@assume-opt: nothing is emitted when the item does not exist in the working tree (a provided trait
+                # method that an impl may or may not override); callers of it then simply have no contract to use
+                b.optional = st.startswith("//@assume-opt ")
                 out.append(("block", b))
             elif st.startswith("//@views "):
                 if buf:
@@ -139,7 +142,7 @@ def parse_template(text):
                 mode = ("closure", int(k))
                 cur.closures[int(k)] = [rdecl.strip(), ""]
             elif cmd == "hint":
-                m = re.match(r'(before|after)\s+"((?:[^"\\]|\\.)*)"\s*(?:#(\d+))?', arg)
+                m = re.match(r'(before|after|closure)\s+"((?:[^"\\]|\\.)*)"\s*(?:#(\d+))?', arg)
                 if not m:
                     raise ValueError("bad hint directive: " + line)
                 anchor = m.group(2).replace('\\"', '"')
@@ -437,7 +440,8 @@ def read_template(unit):
     with open(os.path.join(VERIF, "units", unit + ".rs.in")) as f:
         ttext = f.read()
     # //@include <file relative to /verif/units> [without=ExA,ExB] : textual inclusion (shared preludes), up to 3 levels.
-    # `without=`: the named external type declarations (`#[verifier::..]` attribute lines + `pub struct ExA(..);`) of
+    # `without=`: the named external type / trait declarations (`#[verifier::..]` attribute lines + `pub struct ExA(..);`
+    # or `pub trait ExA { .. }`) of
     # the included file are left out, so that the including unit can declare that type itself with another
     # transparency (unit frames: `Bytecode` transparent, prelude/state.rs declares it opaque).
     def _include(m):
@@ -445,6 +449,8 @@ def read_template(unit):
         for name in (m.group(2) or "").split(","):
             if name:
                 text = re.sub(r"(?:^[ \t]*#\[verifier::[^\n]*\]\n)+[ \t]*pub struct " + re.escape(name) + r"\b[^\n]*;\n",
+                              "", text, flags=re.M)
+                text = re.sub(r"(?:^[ \t]*#\[verifier::[^\n]*\]\n)+[ \t]*pub trait " + re.escape(name) + r"\b[^\n]*\{\n(?:.*\n)*?\}\n",
                               "", text, flags=re.M)
         return text
     for _ in range(3):
@@ -485,6 +491,9 @@ def generate(unit, probe=False, repo=None):
         try:
             item = extract.find(os.path.join(repo, b.path), b.spec)
         except ExtractError:
+            if b.assume and getattr(b, "optional", False):
+                meta["drops"].append(f"assume-opt: {b.path} {b.spec} is absent, no assume_specification emitted")
+                continue
             if not b.alt:
                 raise
             item = extract.find(os.path.join(repo, b.alt[0]), b.alt[1])
